@@ -9,6 +9,7 @@
 mod alloc;
 mod elems;
 mod gen;
+mod judge;
 mod lin;
 mod oracle;
 mod parent;
@@ -89,8 +90,7 @@ fn main() {
             let mut cfg = gen::generate(prop, seed, index);
             cfg.sim.trace = true;
             println!("{}", serde_json::to_string_pretty(&cfg).expect("json"));
-            let rec = work::execute(&cfg, 1);
-            let (findings, _) = oracle::evaluate(&cfg, &rec);
+            let (rec, findings, _) = judge::run_and_judge(&cfg, 1);
             for t in &rec.sim.trace {
                 println!("{t}");
             }
@@ -134,8 +134,7 @@ fn worker(a: &[String]) {
         }
         run_no = run_no.wrapping_add(16);
         let cfg = gen::generate(&prop, seed, idx);
-        let rec = work::execute(&cfg, run_no);
-        let (findings, facts) = oracle::evaluate(&cfg, &rec);
+        let (rec, findings, facts) = judge::run_and_judge(&cfg, run_no);
         st.record_run(&cfg, &rec, &facts);
         transcripts.extend_from_slice(&idx.to_le_bytes());
         transcripts.extend_from_slice(&rec.sim.event_hash.to_le_bytes());
